@@ -1,9 +1,13 @@
 """C09 — Range requests return exactly the requested slice."""
-from kv import Case, xn, xb, xl, xopt, xbool
+import gzip
+import os
+
+import kv
+from kv import Case, xn, xb, xl, xlist, xopt, xbool
 
 ID = "C09"
 MODULE = "C09"
-IMPORTS = "Bytes RustInt Range RangeProofs"
+IMPORTS = "Bytes RustInt Range RangeProofs RangeConn RangeConnProofs"
 PROFILES = ("dev", "nochk")
 THEOREMS = [
     ("range_correct",
@@ -17,21 +21,63 @@ THEOREMS = [
     ("range_never_panics",
      "forall (checked : bool) (hdr : option bytes) (body : bytes), (N.of_nat (length body) <= u64_max)%N -> "
      "serve_range checked hdr 200%N body <> Panic"),
+    ("range_conn_correct",
+     "forall (checked caching : bool) (pg : page) (cache : option page) (reqs : list creq), page_fits pg -> cache_ok pg cache -> "
+     "serve_history checked caching pg cache reqs = Ok (history_spec pg reqs)"),
+    ("range_history_independent",
+     "forall (checked caching : bool) (pg : page) (pre : list creq) (q : creq), page_fits pg -> "
+     "reply_after checked caching pg pre q = Ok (reply_spec pg q)"),
+    ("range_head_as_get",
+     "forall (checked caching : bool) (pg : page) (cache : option page) (ae : N) (hdr : option bytes), page_fits pg -> cache_ok pg cache -> "
+     "fst (conn_step checked caching pg cache {| q_method := HEAD; q_ae := ae; q_range := hdr |}) = "
+     "omap strip_body (fst (conn_step checked caching pg cache {| q_method := GET; q_ae := ae; q_range := hdr |}))"),
+    ("range_slice_of_unranged",
+     "forall (pg : page) (ae : N) (v : bytes) (a c : N), parse_range v = Some (a, c) -> (a <= c)%N -> "
+     "(a < N.of_nat (length (rp_body (choose pg ae))))%N -> exists full part, "
+     "reply_spec pg {| q_method := GET; q_ae := ae; q_range := None |} = WResp full /\\ "
+     "reply_spec pg {| q_method := GET; q_ae := ae; q_range := Some v |} = WResp part /\\ "
+     "w_status full = 200%N /\\ w_status part = 206%N /\\ w_content_encoding part = w_content_encoding full /\\ "
+     "w_body part = firstn (N.to_nat (N.min c (w_content_length full - 1) - a + 1)) (skipn (N.to_nat a) (w_body full)) /\\ "
+     "w_content_length part = N.of_nat (length (w_body part))"),
 ]
-RULE = ("direct calls of kvarn_utils::parse::sanitize_request + CriticalRequestComponents::apply_to_response (both arithmetic "
+RULE = ("(1) direct calls of kvarn_utils::parse::sanitize_request + CriticalRequestComponents::apply_to_response (both arithmetic "
         "profiles: overflow checks on / off) against the Coq model (correspondence) and the Coq specification (oracle). "
         "Exhaustive: body lengths 0..12 x all (a,b) in 0..14; boundary values around 2^32, 2^63, 2^64 for a and b; syntactic variants "
         "(units, lists, suffix/open ranges, signs, spaces, leading zeros, non-ASCII); seeded random mutations of valid headers. "
-        "distinct_nontrivial counts distinct (input, model outcome class) pairs whose model outcome is 206 or 416, or a 200 caused by a "
-        "non-empty rejected header")
+        "(2) request histories on ONE loopback TCP connection through kvarn::handle_connection -> handle_cache -> SendKind::send "
+        "(component range.conn, raw HTTP/1.1 client, framed reads, a sentinel request after each history checks that a HEAD reply "
+        "had no body): pages = {handler page: response cache on/off x ServerCachePreference Full/None x compression on/off, file "
+        "read from the file system} x body lengths {0,1,2,10,60} (thorough: + 3,49,50,51,200,5000) x Accept-Encoding {absent, gzip, "
+        "identity}; histories = {cold, warmed by GET, by HEAD, by a ranged GET, by an unsatisfiable GET, by a GET with another "
+        "Accept-Encoding} x {GET, HEAD} x Range values around the length of the ENCODED representation (a>b, a=len, a=len+1, b>=len, "
+        "u64::MAX, 2^64, single bytes, open/suffix forms, the syntactic variants that travel unchanged through a header line), plus long "
+        "mixed histories and tilings of the encoded representation. Each reply (status, content-range, content-length, "
+        "content-encoding, accept-ranges, body bytes received) is compared with the Coq connection model (correspondence) and with the "
+        "Coq specification range_spec applied to the representation that a GET without Range receives under the same Accept-Encoding "
+        "(oracle; that representation is observed on the real code by component range.repr on a fresh host and must decode to the "
+        "page's body). distinct_nontrivial counts distinct (input, model outcome class) pairs whose model outcome is 206 or 416, or a "
+        "200 caused by a non-empty rejected header; for histories the class is the sequence of reply statuses")
 ASSUMPTIONS = [
-    "bodies fit in memory (length < 2^64), the theorem's only hypothesis",
+    "bodies fit in memory (length < 2^64), the theorems' only hypothesis on the data (page_fits)",
     "HeaderValue::to_str is modelled as 'every byte is visible ASCII or TAB' (http crate); header values the http crate refuses "
     "to construct are counted as out_of_domain",
-    "the pipeline above apply_to_response (which representation is ranged: the content-encoded body) is exercised by the loopback part "
-    "of the thorough tier and by C08/C03; the theorem is about the range arithmetic",
+    "connection level: the response cache entry of the URI is absent or holds this page's response (cache_ok: what handle_cache "
+    "stores; expiry/clearing only makes it absent again); one page per URI, handler status 200, no Prepare/Present/Package extension "
+    "rewrites the response, no If-Modified-Since header, no streaming body (future = None), HTTP/1.1 (content-length framing); "
+    "Range values with leading/trailing blanks or bytes that a header line cannot carry are left to the request parser's "
+    "property (out_of_domain here)",
+    "which bytes the compressor produces for a body is external: a page is given to the model as its list of representations "
+    "per Accept-Encoding class; the run takes them from the real code's own un-ranged replies (range.repr) and checks that they "
+    "decode to the page's body; the request without Range in the same history must receive exactly these bytes again",
 ]
-TRUSTED = ["modelled: utils/src/parse.rs sanitize_request (range closure, start/end test, end+1) and apply_to_response (non-stream branch)"]
+TRUSTED = ["modelled: utils/src/parse.rs sanitize_request (range closure, start/end test, end+1) and apply_to_response (non-stream branch)",
+           "modelled (Model/RangeConn.v): src/lib.rs handle_cache (sanitize_request once before the cache lookup, cache-hit guard "
+           "sanitize_data.is_ok() && GET|HEAD, miss path handler / sanitize_error_into_response, maybe_cache) and SendKind::send "
+           "(range applied to the content-encoded body, 416 short-circuit, ensure_length after slicing, no body for HEAD); "
+           "comprash::clone_preferred / the compressors are NOT modelled: the representation per Accept-Encoding class is an input of "
+           "the model and of the oracle, taken from the implementation's own reply to a GET without Range (harness component "
+           "range.repr) — the correspondence is relative to that observation",
+           "harness/src/c09conn.rs: raw HTTP/1.1 client (request text, response head parser, content-length framing, sentinel request)"]
 EXHAUSTIVE = False
 
 BIG = [2**32 - 1, 2**32, 2**32 + 1, 2**63 - 1, 2**63, 2**64 - 2, 2**64 - 1, 2**64, 2**64 + 1, 10**30]
@@ -61,8 +107,153 @@ VARIANTS = [
 ]
 
 
-def generate(rng, tier):
+# ----------------------------------------------------------------------------------------------
+# connection level: histories on one connection through handle_connection -> handle_cache -> send
+# ----------------------------------------------------------------------------------------------
+GET, HEAD = 0, 1
+AE_NONE, AE_GZIP, AE_IDENTITY = 0, 1, 2
+U64 = 2**64 - 1
+# page configuration: (cache_on, pref_full, compress, kind)   kind 0 = handler page, 1 = file
+CFG_FULL = (1, 1, 1, 0)        # response cache, ServerCachePreference::Full, CompressPreference::Full
+CFG_NOCOMP = (1, 1, 0, 0)      # cached, never compressed
+CFG_PREFNONE = (1, 0, 1, 0)    # ServerCachePreference::None: every request runs the handler
+CFG_NOCACHE = (0, 1, 1, 0)     # the host has no response cache
+CFG_FILE = (1, 1, 1, 1)        # public/f.txt read from the file system (cached, compressed by mime type)
+CFGS = [CFG_FULL, CFG_NOCOMP, CFG_PREFNONE, CFG_NOCACHE, CFG_FILE]
+
+
+def cfg_x(cfg):
+    return xl(xbool(cfg[0]), xbool(cfg[1]), xbool(cfg[2]), xn(cfg[3]))
+
+
+def wire_safe(h):
+    """Header values that travel unchanged through a HTTP/1.1 header line (the request parser is C12's business)."""
+    return (all((c >= 32 and c != 127) or c == 9 for c in h) and not h[:1] in (b" ", b"\t") and not h[-1:] in (b" ", b"\t")
+            and len(h) > 0)
+
+
+_REPR_CACHE = {}
+_PROBE_STATS = {"pages": 0, "fallback": 0}
+
+
+def probe_reprs(pages):
+    """The representation a request WITHOUT Range receives, per Accept-Encoding class, observed on the real code
+    (component range.repr: fresh host, fresh connection, one GET).  It is part of the model's and the spec's input."""
+    todo = [p for p in dict.fromkeys(pages) if p not in _REPR_CACHE]
+    binary = os.path.join(kv.HARNESS, "target", "debug", "kvh")
+    out = {}
+    if todo:
+        lines = ["p%d range.repr %s" % (i, kv.xtext(xl(cfg_x(cfg), xb(bd)))) for i, (cfg, bd) in enumerate(todo)]
+        try:
+            out = kv._run_sharded(binary, lines, shards=8, per_shard=4, timeout=300)
+        except OSError:
+            out = {}
+    for i, p in enumerate(todo):
+        reprs = None
+        o = out.get("p%d" % i)
+        if o:
+            t, v = kv.xparse(o)
+            if t == "L" and len(v) == 3 and all(r[0] == "L" and len(r[1]) == 2 and r[1][1][0] == "B" for r in v):
+                reprs = [((r[1][0][1][0][1] if r[1][0][1] else None), r[1][1][1]) for r in v]
+        if reprs is None:
+            # the un-ranged GET did not answer 200 (or the harness does not run): expect the identity representation,
+            # the run then reports the difference
+            bd = p[1]
+            reprs = [((b"identity" if bd else None), bd)] * 3
+            _PROBE_STATS["fallback"] += 1
+        _PROBE_STATS["pages"] += 1
+        _REPR_CACHE[p] = reprs
+    return {p: _REPR_CACHE[p] for p in pages}
+
+
+def hist(cfg, bd, reprs, reqs, kind, prof="dev"):
+    x = xl(xbool(prof == "dev"), cfg_x(cfg), xb(bd),
+           xlist([xl(xopt(None if e is None else xb(e)), xb(b_)) for e, b_ in reprs]),
+           xlist([xl(xn(m), xn(ae), xopt(None if h is None else xb(h))) for m, ae, h in reqs]))
+    return Case("range.conn", x, "range.conn_spec", {"kind": kind}, prof)
+
+
+def key_headers(n):
+    """Range values around a representation of n bytes: every branch of the specification."""
+    hs = [b"bytes=0-0", b"bytes=1-0", b"bytes=%d-%d" % (n, n), b"bytes=0-%d" % U64, b"bytes=%d-%d" % (n + 1, n),
+          b"bytes=%d-%d" % (max(n - 1, 0), n + 5), b"bytes=%d-%d" % (U64, U64), b"bytes=0-%d" % (U64 + 1), b"bytes=-1", b"bytes=0-"]
+    if n >= 2:
+        hs += [b"bytes=1-%d" % (n - 2 if n > 2 else 1), b"bytes=%d-%d" % (n - 1, n - 1), b"bytes=%d-%d" % (n // 2, n // 2 - 1)]
+    return list(dict.fromkeys(hs))
+
+
+PREFIXES = [
+    ("cold", lambda ae: []),
+    ("warm-get", lambda ae: [(GET, ae, None)]),
+    ("warm-head", lambda ae: [(HEAD, ae, None)]),
+    ("warm-ranged", lambda ae: [(GET, ae, b"bytes=0-0")]),
+    ("warm-416", lambda ae: [(GET, ae, b"bytes=3-1")]),
+    ("warm-other-ae", lambda ae: [(GET, AE_GZIP if ae != AE_GZIP else AE_NONE, None)]),
+]
+
+
+def conn_cases(rng, tier):
+    lens = [0, 1, 2, 10, 60] if tier == "quick" else [0, 1, 2, 3, 10, 49, 50, 51, 60, 200, 5000]
+    pages = [(cfg, body(n)) for cfg in CFGS for n in lens]
+    reprs = probe_reprs(pages)
     cases = []
+    # corpus: the history a weakened cache-hit guard answers with the cached body (missed/3)
+    for cfg in (CFG_FULL, CFG_FILE):
+        p = (cfg, body(60))
+        cases.append(hist(cfg, p[1], reprs[p], [(GET, AE_NONE, None), (GET, AE_NONE, b"bytes=30-20")], "conn-corpus"))
+    pool_syntax = [v for v in VARIANTS if wire_safe(v)]
+    for p in pages:
+        cfg, bd = p
+        rp = reprs[p]
+        for ae in (AE_NONE, AE_GZIP):
+            n = len(rp[ae][1])
+            keys = key_headers(n)
+            for pname, pre in PREFIXES:
+                # short histories: prefix + ONE ranged request (shortest replay when something breaks)
+                if tier == "quick":
+                    ks = [keys[0], keys[1], keys[2]] + rng.sample(keys[3:], 1)
+                else:
+                    ks = keys
+                for h in ks:
+                    m = rng.choice((GET, GET, HEAD))
+                    cases.append(hist(cfg, bd, rp, pre(ae) + [(m, ae, h)], "conn-" + pname,
+                                      "nochk" if rng.random() < 0.2 else "dev"))
+            # long histories: any prefix, then several requests mixing methods, encodings and header kinds
+            for _ in range(1 if tier == "quick" else 6):
+                pname, pre = rng.choice(PREFIXES)
+                reqs = list(pre(ae))
+                for _ in range(rng.randrange(3, 7)):
+                    ae2 = rng.choice((ae, ae, AE_NONE, AE_GZIP, AE_IDENTITY))
+                    n2 = len(rp[ae2][1])
+                    r = rng.random()
+                    if r < 0.15:
+                        h = None
+                    elif r < 0.55:
+                        h = rng.choice(key_headers(n2))
+                    elif r < 0.8:
+                        a = rng.choice([0, 1, n2 // 2, max(n2 - 1, 0), n2, n2 + 1, rng.randrange(0, n2 + 3)])
+                        b_ = rng.choice([0, 1, n2 // 2, max(n2 - 1, 0), n2, n2 + 1, rng.randrange(0, n2 + 3), U64, rng.choice(BIG)])
+                        h = b"bytes=%d-%d" % (a, b_)
+                    else:
+                        h = rng.choice(pool_syntax)
+                    reqs.append((rng.choice((GET, GET, HEAD)), ae2, h))
+                cases.append(hist(cfg, bd, rp, reqs, "conn-long", "nochk" if rng.random() < 0.2 else "dev"))
+    # tiling on the wire: consecutive ranges of the encoded representation, warm and cold
+    for p in pages:
+        cfg, bd = p
+        rp = reprs[p]
+        for ae in (AE_NONE, AE_GZIP):
+            n = len(rp[ae][1])
+            if n < 2 or (tier == "quick" and cfg not in (CFG_FULL, CFG_PREFNONE)):
+                continue
+            cuts = sorted(set([0, n] + [rng.randrange(1, n) for _ in range(3)]))
+            reqs = [(GET, ae, b"bytes=%d-%d" % (lo, hi - 1)) for lo, hi in zip(cuts, cuts[1:])]
+            cases.append(hist(cfg, bd, rp, reqs, "conn-tiling"))
+    return cases
+
+
+def generate(rng, tier):
+    cases = conn_cases(rng, tier)
     # corpus of past failures first
     for h, n in [(b"bytes=5-5", 10), (b"bytes=0-18446744073709551615", 10), (b"bytes=3-9", 10), (b"bytes=0-0", 1),
                  (b"bytes=1-18446744073709551615", 1), (b"bytes=18446744073709551615-18446744073709551615", 3)]:
@@ -115,6 +306,11 @@ def generate(rng, tier):
 
 
 def signature(c, m):
+    if c.comp == "range.conn":
+        # the sequence of reply classes of the history, when it contains a ranged / refused reply
+        import re
+        st = re.findall(r"\(L \(N (\d+)\)", m[8:])
+        return "conn:" + ",".join(st) if any(x in ("206", "416") for x in st) else None
     # model outcome class: 206 / 416 / 200-with-header / other
     if "(N 206)" in m[:40]:
         return "206"
@@ -125,6 +321,33 @@ def signature(c, m):
     return None
 
 
+def extra_oracle(c, i):
+    """The representations in a connection case are what they claim to be: encodings of the page's body."""
+    if c.comp != "range.conn":
+        return None
+    bd = c.x[1][2][1]
+    for k, r in enumerate(c.x[1][3][1]):
+        enc = r[1][0][1][0][1] if r[1][0][1] else None
+        data = r[1][1][1]
+        try:
+            dec = gzip.decompress(data) if enc == b"gzip" else data if enc in (None, b"identity") else None
+        except (OSError, EOFError):
+            dec = None
+        if dec != bd:
+            return "the un-ranged reply for Accept-Encoding class %d (content-encoding %r) does not decode to the page's body" % (k, enc)
+        if (enc is None) != (len(data) == 0):
+            return "content-encoding present on an empty body / absent on a non-empty one (class %d)" % k
+    return None
+
+
+def extra_coverage(cases, impl, model, spec):
+    conn = [c for c in cases if c.comp == "range.conn"]
+    return {"connection_histories": len(conn),
+            "connection_requests": sum(len(c.x[1][4][1]) for c in conn),
+            "pages_probed_for_their_unranged_representation": _PROBE_STATS["pages"],
+            "pages_whose_probe_failed_(identity_assumed)": _PROBE_STATS["fallback"]}
+
+
 def directed(rng, mismatches):
     # boundary sweep around every constant of the model, for both profiles
     cases = []
@@ -132,14 +355,33 @@ def directed(rng, mismatches):
         for a in [0, 1, 2, n - 1 if n else 0, n, n + 1] + BIG:
             for b_ in [0, 1, 2, n - 2 if n > 1 else 0, n - 1 if n else 0, n, n + 1] + BIG:
                 cases += mk(b"bytes=%d-%d" % (a, b_), n, kind="directed")
+    # every page x every prefix x every key header, GET and HEAD
+    pages = [(cfg, body(n)) for cfg in CFGS for n in (0, 1, 2, 10, 60, 300)]
+    reprs = probe_reprs(pages)
+    for p in pages:
+        for ae in (AE_NONE, AE_GZIP):
+            for _, pre in PREFIXES:
+                for h in key_headers(len(reprs[p][ae][1])):
+                    for m in (GET, HEAD):
+                        cases.append(hist(p[0], p[1], reprs[p], pre(ae) + [(m, ae, h)], "directed"))
     return cases
 
 LEVEL_TEXT = ("Machine-checked Coq theorems over a byte-level model of the Range code path: the model equals the specification (206 slice, "
               "content-range text, 416 cases, everything else 200) for every body, every header value and both overflow modes; the "
-              "accepted header syntax is exactly bytes=<u64>-<u64>; tiling reconstructs the body. The model is tied to /repo on every run "
-              "by a differential run of the real sanitize_request/apply_to_response (debug and overflow-unchecked builds) against the "
-              "extracted model on an exhaustive small space + boundaries + syntactic variants.")
+              "accepted header syntax is exactly bytes=<u64>-<u64>; tiling reconstructs the body. On top of it a connection-level model "
+              "of handle_cache + SendKind::send (sanitize before the cache lookup, cache-hit guard, error page, storing, range on the "
+              "content-encoded representation, content-length of the slice, HEAD without body): for every page, every cache state "
+              "(absent / holding the page), every history of GET/HEAD requests and every Range value each reply is range_spec of the "
+              "representation a request without Range receives under the same Accept-Encoding (range_conn_correct), independent of the "
+              "history prefix and of the cache (range_history_independent); HEAD = GET's status and headers without body "
+              "(range_head_as_get); the 206 body is the slice of the un-ranged 200 body with the same content-encoding "
+              "(range_slice_of_unranged). Both models are tied to /repo on every run: direct calls of "
+              "sanitize_request/apply_to_response (debug and overflow-unchecked builds) on an exhaustive small space + boundaries + "
+              "syntactic variants, and request histories over loopback TCP through handle_connection (cold/warm caches, compressed "
+              "and identity representations, GET and HEAD), each reply checked against the extracted model and, independently, against "
+              "the Coq specification.")
 LEVEL_NOTE = ("Trusted: Coq kernel, extraction (ExtrOcamlBasic) reduced by an in-kernel recheck sample, the hand transcription of "
-              "utils/src/parse.rs into Model/Range.v as validated by the differential run, http::HeaderValue::to_str modelled as "
-              "visible-ASCII. No axioms.")
+              "utils/src/parse.rs into Model/Range.v and of handle_cache/send into Model/RangeConn.v as validated by the differential "
+              "runs, http::HeaderValue::to_str modelled as visible-ASCII, the compressed representation taken from the implementation's "
+              "own un-ranged reply (checked to decode to the body). No axioms.")
 TECHNIQUE = "Coq proof (model = spec for all inputs) + differential correspondence model vs. implementation"
